@@ -139,10 +139,11 @@ def worker(case: Dict[str, Any]) -> CaseResult:
         from graphql import build_schema as _bs
         qname = schema_ref.query_type.name
         args_ = ", ".join("a%d: %s!" % (k, n) for k, n in enumerate(scalars))
+        opt_args_ = ", ".join("o%d: %s" % (k, n) for k, n in enumerate(scalars))  # optional ones the operations never pass; the operation builder probe does
         # ... and an input object holding every scalar (plain and in a list), taken by a query field and - where the schema has subscriptions and the
         # client is asynchronous - by a subscription field: nested occurrences on the HTTP and on the websocket route
         in_def = "input VfScalarIn {\n%s}\n" % "".join("  s%d: %s!\n  l%d: [%s!]\n" % (k, n, k, n) for k, n in enumerate(scalars))
-        sdl_new = _re.sub(r"(type %s[^{]*\{\n)" % _re.escape(qname), lambda m_: m_.group(1) + "  vfTakeScalars(%s): [%s]\n  vfTakeInput(inp: VfScalarIn!): Int\n" % (args_, scalars[0]), sdl, count=1)
+        sdl_new = _re.sub(r"(type %s[^{]*\{\n)" % _re.escape(qname), lambda m_: m_.group(1) + "  vfTakeScalars(%s, %s): [%s]\n  vfTakeInput(inp: VfScalarIn!): Int\n" % (args_, opt_args_, scalars[0]), sdl, count=1)
         sub_t = schema_ref.subscription_type
         with_sub = sub_t is not None and case["cfg"].get("async_client", True)
         if with_sub:
@@ -439,6 +440,73 @@ def worker(case: Dict[str, Any]) -> CaseResult:
                 for clause, detail in out[:4]:
                     violations.append(Violation(PROP, "reaches-user-as-parse-of-raw", "%s [%s]: %s: %s" % (op_name, mode, clause, detail), fl, replay_case, mech="c07:model-value:" + clause))
                 count("leaves_walked", wstats.get("leaves", 0))
+        # ---- the operation builder (custom_arguments.py): the same contract for arguments given to a builder method
+        root_q = schema_ref.query_type
+        if cfg_full.get("enable_custom_operations") and "vfTakeScalars" in root_q.fields:
+            import inspect as _inspect
+            cq = sys.modules.get(pkg.__name__ + ".custom_queries")
+            holder = getattr(cq, "Query", None) if cq else None
+            bmeth = next((getattr(holder, c_) for c_ in ("vf_take_scalars", "vfTakeScalars") if holder is not None and hasattr(holder, c_)), None)
+            arg_names = list(root_q.fields["vfTakeScalars"].args)
+            params = [p_ for p_ in _inspect.signature(bmeth).parameters] if bmeth else []
+            if bmeth is None or len(params) != len(arg_names):
+                count("builder_probe_skipped")
+            else:
+                py_of = dict(zip(arg_names, params))
+                ser_variants = ("both", "deprecated_import", "serialize_str", "ctor_parse")
+                for script, num in (("truthy", 7), ("falsy", 20), ("optional-given", 40), ("optional-none", 13)):
+                    kwargs, want_values, want_args, ser_want = {}, [], [], []
+                    for k, n in enumerate(scalars):
+                        given = [("a%d" % k, tokens[n](num + k * 20))]
+                        if script == "optional-given":
+                            given.append(("o%d" % k, tokens[n](num + 1 + k * 20)))
+                        if script == "optional-none" and k == 0:
+                            kwargs[py_of["o0"]] = None  # explicit None: omitted, serialize not called
+                        for an, tok in given:
+                            kwargs[py_of[an]] = in_python(n, tok)
+                            want_values.append(in_wire(n, tok))
+                            want_args.append(an)
+                            if variant_of[n] in ser_variants:
+                                ser_want.append((k, repr(in_python(n, tok))))
+                    csm_mod.CALLS.clear()
+                    n0 = len(server.captured)
+                    server.world = World(schema_ref, seed=case["seed"], mode="full", rotation=0, custom_scalar_values=tokens)
+                    fl = sorted(feats | {"builder.scalar_args", "builder.scalar_args." + script})
+                    try:
+                        fobj = bmeth(**kwargs)
+                        if is_async:
+                            import asyncio as _asyncio
+                            _asyncio.run(client.query(fobj, operation_name="VfBuilderProbe"))
+                        else:
+                            client.query(fobj, operation_name="VfBuilderProbe")
+                        err = None
+                    except BaseException as e:  # noqa: BLE001
+                        err = e
+                    count("builder_probe_calls")
+                    if len(server.captured) != n0 + 1:
+                        violations.append(Violation(PROP, "builder-request-sent", "builder probe [%s]: call did not reach the transport: %s: %s" % (
+                            script, type(err).__name__, str(err)[:300]), fl, replay_case, mech="c07:builder-request-sent"))
+                        continue
+                    ser_calls = sorted((i_, a_) for k_, i_, a_ in csm_mod.CALLS if k_ == "serialize")
+                    count("serialize_calls_expected", len(ser_want))
+                    if ser_calls != sorted(ser_want):
+                        violations.append(Violation(PROP, "builder-serialize-exactly-once", "builder probe [%s]: serialize calls %r, expected one per given non-None argument %r" % (
+                            script, ser_calls[:12], sorted(ser_want)[:12]), fl, replay_case, mech="c07:builder-serialize-once"))
+                    body = server.captured[-1]
+                    sent_values = sorted((json.dumps(v_, default=str) for v_ in (body.get("variables") or {}).values()))
+                    if sent_values != sorted(json.dumps(v_, default=str) for v_ in want_values):
+                        violations.append(Violation(PROP, "builder-wire-is-serialize-of-value", "builder probe [%s]: variables sent %s, expected the values %s" % (
+                            script, json.dumps(body.get("variables"), sort_keys=True, default=str)[:500], json.dumps(want_values, default=str)[:500]), fl, replay_case, mech="c07:builder-wire-value"))
+                    try:
+                        sent_doc = parse(body.get("query") or "")
+                        top = [s_ for d_ in sent_doc.definitions if isinstance(d_, OperationDefinitionNode) for s_ in d_.selection_set.selections]
+                        got_args = sorted(a_.name.value for s_ in top if getattr(s_, "name", None) and s_.name.value == "vfTakeScalars" for a_ in s_.arguments)
+                    except Exception as e:  # noqa: BLE001
+                        got_args = ["<unparsable: %s>" % e]
+                    if got_args != sorted(want_args):
+                        violations.append(Violation(PROP, "builder-arguments-in-document", "builder probe [%s]: the document passes %r, the caller gave %r" % (
+                            script, got_args, sorted(want_args)), fl, replay_case, mech="c07:builder-arguments"))
+                feats.add("builder.scalar_args")
     sample = None
     if case["idx"] < 2:
         sample = {"scalar_config": cfg_full.get("scalars"), "operations": [o[:300] for o in ops]}
@@ -452,7 +520,7 @@ def run(tier: str, seed: int) -> int:
               "pydantic-native datetime via dotted path, deprecated import key, unconfigured}; instrumented functions shipped through files_to_include; per operation "
               "4 worlds/argument scripts; distinct = distinct feature-set")
     r.assumptions = ["graphql-core reference server", "the instrumented functions' call log is the ground truth for 'called once'"]
-    r.floors = {"responses_checked": 200, "parse_calls_expected": 200, "serialize_calls_expected": 100}
+    r.floors = {"responses_checked": 200, "parse_calls_expected": 200, "serialize_calls_expected": 100, "builder_probe_calls": 20}
     n = 1200 if tier == "thorough" else 170
     cases = [cw.make_case(seed, i, dirty=["schema.force_scalar"], tier=tier) for i in range(n)]
     for i, c in enumerate(cases):
